@@ -161,6 +161,9 @@ func (g *DocGen) argVariants(parent, field string) [][]Arg {
 			{{"in", ParseValue("{a:1,b:3}")}},
 			{{"in", ParseValue("{a:1,b:[1,$x]}")}},
 			{{"in", ParseValue("{a:2,d:{k:$s}}")}},
+			{{"lin", ParseValue("[{a:1,b:[$x]},{a:2}]")}},
+			{{"ll", ParseValue("[[1,$x],[2]]")}},
+			{{"in", ParseValue("{c:$e,a:1,b:[2]}")}},
 		}
 	}
 	return [][]Arg{nil, {{"x", IntV(1)}}, {{"x", VarV("x")}}}
